@@ -621,6 +621,63 @@ fn exec_call_inner(ctx: &mut Ctx, idx: usize, c: &Value, keep: &mut Option<Owned
             }
             out
         }
+        (_, "reopen_tty") => {
+            // a session leader without controlling terminal reopens a handle to a pty slave: the reopen must not make it
+            // the controlling terminal (O_NOCTTY is part of the reopen contract).  Done in a forked child.
+            let use_c = s(c, "api") == "c";
+            let fl = c["oflags"].as_i64().unwrap_or(libc::O_RDWR as i64) as i32;
+            let pid = unsafe { libc::fork() };
+            if pid == 0 {
+                let code = (|| -> i32 {
+                    unsafe {
+                        if libc::setsid() < 0 {
+                            return 3;
+                        }
+                        let m = libc::posix_openpt(libc::O_RDWR | libc::O_NOCTTY);
+                        if m < 0 || libc::grantpt(m) != 0 || libc::unlockpt(m) != 0 {
+                            return 3;
+                        }
+                        let mut buf = [0 as c_char; 64];
+                        if libc::ptsname_r(m, buf.as_mut_ptr(), buf.len()) != 0 {
+                            return 3;
+                        }
+                        let name = std::ffi::CStr::from_ptr(buf.as_ptr()).to_string_lossy().to_string();
+                        let leaf = name.rsplit('/').next().unwrap_or("0").to_string();
+                        let root = match Root::open("/dev/pts") {
+                            Ok(r) => r,
+                            Err(_) => return 3,
+                        };
+                        let h = match root.resolve(&leaf) {
+                            Ok(h) => h,
+                            Err(_) => return 3,
+                        };
+                        let ok = if use_c {
+                            let r = pathrs_reopen(h.as_fd().as_raw_fd(), fl);
+                            r >= 0
+                        } else {
+                            h.reopen(OpenFlags::from_bits_retain(fl)).map(|f| { std::mem::forget(f); }).is_ok()
+                        };
+                        if !ok {
+                            return 4;
+                        }
+                        // does the process have a controlling terminal now?
+                        let t = libc::open(b"/dev/tty\0".as_ptr() as *const c_char, libc::O_RDWR | libc::O_NOCTTY);
+                        if t >= 0 { 1 } else { 0 }
+                    }
+                })();
+                unsafe { libc::_exit(code) };
+            }
+            let mut st = 0;
+            unsafe { libc::waitpid(pid, &mut st, 0) };
+            let code = if libc::WIFEXITED(st) { libc::WEXITSTATUS(st) } else { 99 };
+            match code {
+                0 => json!({"ok": true, "ctty": false}),
+                1 => json!({"ok": true, "ctty": true}),
+                3 => json!({"ok": false, "skip": "no pty available"}),
+                4 => json!({"ok": false, "kind": "OsError", "errno": 0, "msg": "reopen of the pty failed"}),
+                x => json!({"ok": false, "panic": format!("child ended with {x}")}),
+            }
+        }
         ("rust", "try_clone_root") => {
             let r = bracket!(ctx.root.as_ref().unwrap().try_clone());
             from_fd_result(r, keep)
